@@ -374,6 +374,15 @@ CapSlices(sq, k) ==
       nth(n) == CHOOSE i \in idx : Cardinality({j \in idx : j <= i}) = n IN
   [n \in 1..Cardinality(idx) |-> sq[nth(n)]]
 
+\* the paged sequence `cat` against the capped one-request sequence: equal, except that the k-th (last admitted) slice of a
+\* document may end earlier - compute_snippet_slices stops at the cap before merging the next nearby occurrence into it
+CapLike(cat, capped, k) ==
+  /\ Len(cat) = Len(capped)
+  /\ \A i \in 1..Len(cat) :
+        \/ cat[i] = capped[i]
+        \/ /\ cat[i][1] = capped[i][1] /\ cat[i][2] = capped[i][2] /\ cat[i][3] < capped[i][3]
+           /\ Cardinality({j \in 1..i : cat[j][1] = cat[i][1]}) = k
+
 TSearch ==
   /\ IsEvent("search") /\ Read("search")
   /\ LET a == Ev.args
@@ -424,7 +433,7 @@ TSearch ==
                    \* as built a response holds at most top_k slices of one document, so with small pages the later slices of a
                    \* document that has more of them are never returned: the one-request sequence with every document capped
                    capped == CapSlices(v.oneshot, a.top_k)
-                   capSeq == ~Has(v, "paging_err") /\ ~Has(v, "paging_runaway") /\ cat = capped /\ capped # v.oneshot IN
+                   capSeq == ~Has(v, "paging_err") /\ ~Has(v, "paging_runaway") /\ CapLike(cat, capped, a.top_k) IN
                \* the concatenated pages are the one-request sequence: no hit lost, repeated or moved
                /\ (IF goodSeq THEN TRUE
                    ELSE IF capSeq /\ "D16_slice_cap" \in Defects THEN Dev("D16_slice_cap")
